@@ -69,14 +69,14 @@ Proof.
     exfalso. apply Hne. now apply Hp. }
   rstep_inv H;
   try match goal with E : r_st s ?i = _ |- _ =>
-        assert (i < ridx (r_pc s)) by (apply Hlt; congruence)
+        assert (i < ridx (r_pc s)) by (apply Hlt; rewrite E; discriminate)
       end;
   try match goal with Hx : _ < ridx (r_pc s) |- _ =>
         assert (Hna : r_pc s <> RAdd) by (intros Hy; rewrite Hy in Hx; cbn in Hx; lia);
         specialize (Hw Hna)
       end;
   try match goal with E : r_pc s = _ |- _ => rewrite E in * end; cbn in Hpc, Hp, Hnp;
-  try (specialize (Hw ltac:(discriminate)));
+  try (match type of Hw with (_ <> _ -> _) => let Hq := fresh in assert (Hq : r_wg s = countf r_pre_done (r_st s) n) by (apply Hw; discriminate); clear Hw; rename Hq into Hw end);
   (* the panic case: the counter cannot be zero *)
   try (match goal with E : r_st s ?i = RStored, Z : r_wg s = 0 |- _ =>
          exfalso; pose proof (countf_pos r_pre_done (r_st s) n i ltac:(lia) ltac:(now rewrite E)); lia end);
@@ -94,7 +94,7 @@ Proof.
     try (apply He; assumption);
     try (apply He; match goal with E : r_st s _ = _ |- _ => rewrite E end; reflexivity)
   | reflexivity ]).
-Show.
+
 Qed.
 
 Lemma rinv_reach s : rreach s -> rinv s.
